@@ -1,4 +1,4 @@
-import CppUModel.Proofs.LeakPlugin
+import CppUModel.Proofs.LeakPluginChain
 /-!
 # C07 — per-test leak verdict: leaking tests fail, clean ones pass, blame is correct
 
@@ -455,6 +455,164 @@ theorem declarations_reach_first_plugin (overloads : Bool) (ops : List ProcOp) :
 theorem other_plugins_leave_world (p : Proc) (op : ProcOp) : (p.step op).w = p.w := by
   cases op <;> rfl
 
+/-! ## several plugins: the chain the leak plugin is installed in
+
+`TestRegistry::installPlugin`, `TestPlugin::runAllPreTestAction` / `runAllPostTestAction` (statement order and
+`enabled_` guards regenerated into `Gen/LeakChainCode.lean`) decide which actions of OTHER plugins fall between
+the leak plugin's pre and post action.  A plugin is given by what its pre and post action do for the test at
+hand (`Other`): tracked memory operations and failures added with `result.addFailure` (a `MockSupportPlugin`
+whose post action checks and clears the expectations of the test, …). -/
+
+/-- pre actions: the head of the chain first, then the rest; a disabled plugin's action is skipped
+    (the regenerated `runAllPreTestAction`) -/
+theorem chain_pre_order {π σ : Type} (en : π → Bool) (act : π → σ → σ) (p : π) (rest : List π) (s : σ) :
+    chainPre en act (p :: rest) s = chainPre en act rest (if en p then act p s else s) := chainPre_cons en act p rest s
+
+/-- post actions: the rest of the chain first, the head last (the regenerated `runAllPostTestAction`): actions nest -/
+theorem chain_post_order {π σ : Type} (en : π → Bool) (act : π → σ → σ) (p : π) (rest : List π) (s : σ) :
+    chainPost en act (p :: rest) s = (if en p then act p (chainPost en act rest s) else chainPost en act rest s) :=
+  chainPost_cons en act p rest s
+
+/-- `installPlugin` makes the new plugin the head of the chain … -/
+theorem install_puts_at_head {π : Type} (chain : List π) (p : π) : installPlugin chain p = p :: chain := rfl
+
+theorem foldl_install {π : Type} : ∀ (l acc : List π), l.foldl installPlugin acc = l.reverse ++ acc
+  | [], _ => rfl
+  | p :: l, acc => by
+    rw [List.foldl_cons, install_puts_at_head, foldl_install l, List.reverse_cons, List.append_assoc]; rfl
+
+/-- … so in the arrangement of `CommandLineTestRunner::RunAllTests` (the leak plugin is installed by the runner,
+    after everything `main()` installed) every other plugin is behind the leak plugin: all of them act INSIDE the
+    window, none outside. -/
+theorem runAllTests_arrangement_all_inner (mainPlugins : List Other) :
+    installPlugin ((mainPlugins.map Plug.other).foldl installPlugin []) (.leak true) =
+      (ChainSpec.toTest { outer := [], inner := mainPlugins.reverse }).chain := by
+  rw [install_puts_at_head, foldl_install]
+  simp [ChainSpec.toTest]
+
+/-- a plugin installed after the leak plugin is in front of it: it acts outside the window -/
+theorem installed_later_is_outer (inner : List Other) (o : Other) :
+    installPlugin (ChainSpec.toTest { inner := inner }).chain (.other o) =
+      (ChainSpec.toTest { outer := [o], inner := inner }).chain := rfl
+
+/-- the run under a chain, unfolded with the regenerated orders: outer pre actions, leak pre action, inner pre
+    actions, constructor, setup/body/teardown, destructor, inner post actions (last plugin first), leak post
+    action, outer post actions -/
+theorem chain_run_unfolded (w : World) (t : ChainSpec) :
+    runTestChain w t.toTest = runAct (postTestAction (atInnerEnd w t)) (postCmds t.outer) := runTestChain_eq w t
+
+/-- with no other plugin the chain run is the run of the previous sections -/
+theorem chain_without_other_plugins (w : World) (obj : TestObj) :
+    runTestChain w (ChainSpec.toTest { obj := obj }) = runTestObj w obj := by
+  rw [runTestChain_eq, runTestObj_eq]; rfl
+
+/-- **The verdict under any chain of plugins.**  The test gets a leak failure exactly when no failure was recorded
+    between the leak plugin's pre and post action (own checks, or failures added by the plugins behind it), it
+    did not ask to ignore leaks, and the number of blocks allocated in that window — by the inner plugins' pre
+    actions, the constructor, setup, body, teardown, the destructor, the inner plugins' post actions — and still
+    outstanding at its end differs from the declared number.  What the plugins in front of the leak plugin
+    allocate in their pre actions or release in their post actions is outside the window. -/
+theorem chain_leak_failure_iff (w : World) (hc : Clean w) (hov : w.overloads = true) (t : ChainSpec) :
+    (runTestChain w t.toTest).leakFail.isSome = true ↔
+      ((atEndChain w.liveIds t).own = 0 ∧ (atEndChain w.liveIds t).ignore = false ∧
+        (blocksOfChain w.liveIds t).length ≠ (atEndChain w.liveIds t).expected) := by
+  rw [leakFail_runTestChain hc t, hov]
+  simp only [Bool.true_and]
+  by_cases h : shouldFailChain w.liveIds t = true
+  · simp only [h, if_true, Option.isSome_some, true_iff]
+    simpa [shouldFailChain, verdictAt, blocksOfChain, and_assoc] using h
+  · simp only [h]
+    simp only [Bool.false_eq_true, if_false, Option.isSome_none, false_iff]
+    intro h'
+    apply h
+    simpa [shouldFailChain, verdictAt, blocksOfChain, and_assoc] using h'
+
+/-- its report lists exactly the blocks of the window (each once, the stated total is their number) and no block
+    that existed at the leak plugin's pre action — in particular none an outer plugin's pre action allocated -/
+theorem chain_report_lists_exactly (w : World) (hc : Clean w) (t : ChainSpec) (r : LeakReport)
+    (h : (runTestChain w t.toTest).leakFail = some r) :
+    r.entries.map (·.id) = blocksOfChain w.liveIds t ∧ r.total = (blocksOfChain w.liveIds t).length ∧
+      r.entries.length = r.total ∧
+      ∀ e ∈ r.entries, ∀ r0 ∈ (atLeakPre w t).det.recs, e.num ≠ r0.num := by
+  rw [leakFail_runTestChain hc t] at h
+  split at h
+  · cases h
+    have hm := (sim_atInnerEnd hc t).chk
+    refine ⟨hm, rfl, ?_, ?_⟩
+    · show _ = (blocksOfChain w.liveIds t).length
+      unfold blocksOfChain; rw [← hm, List.length_map]
+    · intro e he r0 hr0
+      have hn := numInv_atInnerEnd hc t
+      simp only [List.mem_filter, beq_iff_eq] at he
+      have h1 : (atLeakPre w t).det.seq ≤ e.num := hn.fresh e he.1 he.2
+      have h2 : r0.num < (atLeakPre w t).det.seq := (clean_atLeakPre hc t).numsBelow r0 hr0
+      omega
+  · cases h
+
+/-- a failure added inside the window by another plugin (unmet mock expectations reported by a plugin installed
+    before the leak plugin) counts as the test having failed already: no additional leak failure -/
+theorem failure_of_inner_plugin_blocks_leak_failure (w : World) (hc : Clean w) (t : ChainSpec)
+    (hf : (atEndChain w.liveIds t).own > 0) : (runTestChain w t.toTest).leakFail = none := by
+  rw [leakFail_runTestChain hc t]
+  have : shouldFailChain w.liveIds t = false := by
+    simp only [shouldFailChain, verdictAt, Bool.and_eq_false_imp, Bool.and_eq_true, beq_iff_eq, and_imp]
+    intro h; omega
+  simp [this]
+
+/-- what the plugins in front of the leak plugin do after its post action cannot take the verdict back or add one -/
+theorem outer_post_actions_leave_verdict (w : World) (t : ChainSpec) :
+    (runTestChain w t.toTest).leakFail = (postTestAction (atInnerEnd w t)).leakFail := by
+  rw [runTestChain_eq]; exact (frame_runAct _ _).2.1
+
+/-- The failures recorded for a test under a chain: what the plugins in front of the leak plugin add in their pre
+    actions, the failures inside the window (own checks and inner plugins), at most ONE leak failure, and what the
+    outer plugins add in their post actions. -/
+theorem chain_failures_recorded (w : World) (hc : Clean w) (t : ChainSpec) :
+    (verdictOf w (runTestChain w t.toTest)).failures =
+      failCount (preCmds t.outer) + (atEndChain w.liveIds t).own +
+        (if w.overloads && shouldFailChain w.liveIds t then 1 else 0) + failCount (postCmds t.outer) := by
+  simp only [verdictOf]
+  rw [failures_runTestChain hc t]; omega
+
+/-- the state between tests is re-established and the outstanding blocks follow the history -/
+theorem clean_after_chain_test (w : World) (hc : Clean w) (t : ChainSpec) :
+    Clean (runTestChain w t.toTest) ∧ (runTestChain w t.toTest).liveIds = liveAfterChain w.liveIds t :=
+  ⟨clean_runTestChain hc t, liveIds_runTestChain hc t⟩
+
+/-- **Whole run, several plugins.**  For every sequence of tests, each under its own chain (plugins may be
+    installed, removed, enabled or disabled between tests; one enabled leak plugin), the list of "got a leak
+    failure" flags is the list the property statement prescribes on the history. -/
+theorem all_chain_verdicts_follow_history (w0 : World) (hc : Clean w0) (hov : w0.overloads = true) (ts : List ChainSpec) :
+    (runChainTests w0 (ts.map ChainSpec.toTest)).2.map (fun v => v.leakFail.isSome) = chainVerdicts w0.liveIds ts := by
+  induction ts generalizing w0 with
+  | nil => rfl
+  | cons t ts ih =>
+    simp only [List.map_cons, runChainTests, chainVerdicts]
+    rw [ih (runTestChain w0 t.toTest) (clean_runTestChain hc t) (by rw [overloads_runTestChain]; exact hov),
+      liveIds_runTestChain hc t]
+    congr 1
+    simp only [verdictOf]
+    rw [leakFail_runTestChain hc t, hov]
+    cases shouldFailChain w0.liveIds t <;> rfl
+
+/-- without a leak plugin in the chain nobody adds a leak failure -/
+theorem no_leak_plugin_no_leak_failure (w : World) (others : List Other) (obj : TestObj) :
+    (runTestChain w { chain := others.map .other, obj := obj }).leakFail = none := by
+  simp only [runTestChain, runOneTestChain, Gen.LeakCode.runOneTestOrder, List.foldl_cons, List.foldl_nil, rstepChain,
+    chainPre_others, chainPost_others]
+  have h : Frame (runOutside (clearObs w) obj.test.before)
+      (runAct (runMem (runBody (runMem (runAct (runOutside (clearObs w) obj.test.before) (preCmds others)) obj.ctor) obj.test)
+        obj.dtor) (postCmds others)) :=
+    ((((frame_runAct _ _).trans (frame_runMem obj.ctor _)).trans (frame_runBody _ obj.test)).trans
+      (frame_runMem obj.dtor _)).trans (frame_runAct _ _)
+  exact h.2.1.trans (atStart_obs w obj.test).1
+
+/-- a disabled plugin takes no part: its scripts may be anything -/
+theorem disabled_plugin_does_nothing (o : Other) (l : List Other) (h : o.enabled = false) :
+    preCmds (o :: l) = preCmds l ∧ postCmds (o :: l) = postCmds l := by
+  simp [preCmds, postCmds, h]
+
+
 /-! ## FinalReport, the overload switches, destroyGlobalDetector -/
 
 theorem finalReport_is_FinalReport_zero (w : World) : finalReport w = finalReportN w 0 := rfl
@@ -513,6 +671,55 @@ theorem warning_iff (w : World) (hc : Clean w) (t : Test) :
 theorem destroy_gives_fresh_detector (w : World) :
     (destroyGlobalDetector w).det = Detector.init ∧ (destroyGlobalDetector w).overloads = false ∧
       (destroyGlobalDetector w).det.recs = [] := ⟨rfl, rfl, rfl⟩
+
+/-! ## the whole run made by `CommandLineTestRunner::RunAllTests` -/
+
+/-- the chain `RunAllTests` works with: its own leak plugin in front of everything `main()` installed — every
+    other plugin acts inside the window -/
+theorem runner_chain_all_inner (mainPlugins : List Other) :
+    runnerChain mainPlugins = (ChainSpec.toTest { outer := [], inner := mainPlugins.reverse }).chain :=
+  runAllTests_arrangement_all_inner mainPlugins
+
+/-- the runner installs its leak plugin before its `SetPointerPlugin` (regenerated installation order) and asks
+    for `FinalReport(0)` -/
+theorem runner_installs_leak_plugin_first :
+    Gen.LeakChain.runnerInstalls.head? = some "MemoryLeakPlugin" ∧ Gen.LeakChain.finalReportArg = 0 := ⟨rfl, rfl⟩
+
+/-- After the run `RunAllTests` asks for the final report exactly when no failure was recorded; the report is
+    then silent exactly when no block allocated since the plugin was constructed is outstanding, and otherwise
+    lists those blocks (the ones tests declared with `EXPECT_N_LEAKS` or were told to ignore). -/
+theorem runner_final_report (w : World) :
+    (runnerFinal w = none ↔ w.failures ≠ 0) ∧
+    (runnerFinal w = some none ↔ (w.failures = 0 ∧ (w.det.recs.filter (fun r => r.period != .disabled)).length = 0)) ∧
+    (∀ r, runnerFinal w = some (some r) →
+      r.entries = w.det.out ++ w.det.recs.filter (fun r => r.period != .disabled) ∧
+        r.total = (w.det.recs.filter (fun r => r.period != .disabled)).length) := by
+  unfold runnerFinal
+  simp only [Gen.LeakChain.finalReportOnlyIfPassed, Gen.LeakChain.finalReportArg, Bool.true_and]
+  by_cases hf : w.failures = 0
+  · simp only [hf, bne_self_eq_false, Bool.false_eq_true, if_false, reduceCtorEq, ne_eq, not_true_eq_false,
+      true_and, Option.some.injEq]
+    refine ⟨finalReportN_silent_iff w 0, ?_⟩
+    intro r h; exact finalReportN_lists w 0 r h
+  · have : (w.failures != 0) = true := by simpa using hf
+    simp [this, hf]
+
+/-- whole run under the runner's arrangement: verdicts as the property prescribes on the history, for any plugins
+    `main()` installed and any scripts of their actions -/
+theorem runner_verdicts_follow_history (ts : List (List Other × TestObj)) :
+    (runChainTests (World.init true)
+        (ts.map fun t => ({ chain := runnerChain t.1, obj := t.2 } : ChainTest))).2.map (fun v => v.leakFail.isSome) =
+      chainVerdicts [] (ts.map fun t => ({ outer := [], inner := t.1.reverse, obj := t.2 } : ChainSpec)) := by
+  have h := all_chain_verdicts_follow_history (World.init true) (init_clean true) rfl
+    (ts.map fun t => ({ outer := [], inner := t.1.reverse, obj := t.2 } : ChainSpec))
+  rw [List.map_map] at h
+  have e : (ts.map fun t => ({ chain := runnerChain t.1, obj := t.2 } : ChainTest)) =
+      ts.map (ChainSpec.toTest ∘ fun t => ({ outer := [], inner := t.1.reverse, obj := t.2 } : ChainSpec)) := by
+    apply List.map_congr_left
+    intro t _
+    simp only [Function.comp, ChainSpec.toTest]
+    rw [runner_chain_all_inner]; rfl
+  rw [e]; exact h
 
 /-! ## already_failed_gets_no_leak_failure -/
 
@@ -612,5 +819,35 @@ example : neverAllocs 1 [Cmd.free 1, Cmd.alloc 2 4] := by
 -- a test expecting one leak that leaks nothing gets a failure whose report lists nothing
 example : ((runTests (World.init true) [{ body := [.expectLeaks 1] }]).2.map
     (fun v => v.leakFail.map (fun r => (r.entries.length, r.total)))) = [some (0, 0)] := by decide
+
+/-- the mock-plugin situation: the body allocates block 1 (an expectation), the plugin's post action releases it.
+    Plugin installed BEFORE the leak plugin (as with `RunAllTests`): inside the window, no leak.  Installed AFTER
+    it: the release comes after the verdict, block 1 is reported.  A block the outer plugin allocated in its pre
+    action (2) is not charged, one an inner plugin allocated and kept (3) is. -/
+def mockLike : Other := { post := [.free 1] }
+
+example : (runTestChain (World.init true) (ChainSpec.toTest { inner := [mockLike], obj := { test := { body := [.alloc 1 8] } } })).leakFail.map
+    (fun r => r.entries.map (·.id)) = none := by decide
+
+example : (runTestChain (World.init true) (ChainSpec.toTest { outer := [mockLike], obj := { test := { body := [.alloc 1 8] } } })).leakFail.map
+    (fun r => r.entries.map (·.id)) = some [1] := by decide
+
+example : (runTestChain (World.init true) (ChainSpec.toTest { outer := [{ pre := [.alloc 2 4] }], inner := [{ pre := [.alloc 3 4] }] })).leakFail.map
+    (fun r => r.entries.map (·.id)) = some [3] := by decide
+
+-- unmet expectations reported by an inner plugin's post action: the leak is not reported on top
+example : (runTestChain (World.init true) (ChainSpec.toTest { inner := [{ post := [.fail] }], obj := { test := { body := [.alloc 1 8] } } })).leakFail = none
+    ∧ (atEndChain [] { inner := [{ post := [.fail] }], obj := { test := { body := [.alloc 1 8] } } }).own = 1 := by decide
+
+-- two tests under different chains; the second one frees what the first one's outer plugin left behind
+example : chainVerdicts [] [ { outer := [{ pre := [.alloc 5 1] }], obj := { test := { body := [.alloc 1 8] } } },
+                              { inner := [{ enabled := false, pre := [.alloc 9 9] }, { post := [.free 5] }] } ] = [true, false] := by decide
+
+example : installPlugin (installPlugin ([] : List Plug) (.other mockLike)) (.leak true) = [.leak true, .other mockLike] := rfl
+
+-- the runner: a passed run with a declared leak prints it in the final report; a failed run prints none
+example : (runnerFinal (runChainTests (World.init true) [{ chain := runnerChain [], obj := { test := { body := [.expectLeaks 1, .alloc 1 8] } } }]).1).map
+    (fun o => o.map (fun r => r.entries.map (·.id))) = some (some [1]) := by decide
+example : runnerFinal (runChainTests (World.init true) [{ chain := runnerChain [], obj := { test := { body := [.alloc 1 8] } } }]).1 = none := by decide
 
 end LeakPlugin
